@@ -374,6 +374,11 @@ def run(prog: Program, rep, tier="quick"):
                 raise AnalysisError(f"{f.where}:{s.call.lineno}: CAS result is used in a shape R06.2 does not understand")
             starts = fail | exc
             bad = must_pass(g, ends, fails, start=starts)
+            if bad:
+                # a failure recorded through a None-initialised temporary (`failure = "..."; if failure is not None: status[ref] = failure`):
+                # follow None-flags precisely before believing the path
+                from sa.flow import must_pass_ps
+                bad = must_pass_ps(g, ends, fails, start=starts)
             w = []
             if bad:
                 p = path(g, starts, bad[0], avoid=fails)
